@@ -245,12 +245,30 @@ impl Ord for Number {
                     l.cmp(&(*r as u64))
                 }
             }
-            (_, _) => {
-                let l = OrderedFloat(self.as_f64().unwrap());
-                let r = OrderedFloat(other.as_f64().unwrap());
-                l.cmp(&r)
-            }
+            (Number::Float64(l), Number::Float64(r)) => OrderedFloat(*l).cmp(&OrderedFloat(*r)),
+            (Number::Int64(l), Number::Float64(r)) => cmp_int_float(*l as i128, *r),
+            (Number::UInt64(l), Number::Float64(r)) => cmp_int_float(*l as i128, *r),
+            (Number::Float64(l), Number::Int64(r)) => cmp_int_float(*r as i128, *l).reverse(),
+            (Number::Float64(l), Number::UInt64(r)) => cmp_int_float(*r as i128, *l).reverse(),
         }
+    }
+}
+
+// Compare an integer with a float by their exact mathematical values,
+// casting the integer to f64 would round it when it is beyond 2^53.
+// NaN is greater than any integer, the same as `OrderedFloat`.
+fn cmp_int_float(i: i128, f: f64) -> Ordering {
+    if f.is_nan() || f >= 18446744073709551616.0 {
+        return Ordering::Less;
+    }
+    if f < -9223372036854775808.0 {
+        return Ordering::Greater;
+    }
+    // the integral part of `f` is in the range [-2^63, 2^64) and can be converted exactly.
+    let t = f.trunc();
+    match i.cmp(&(t as i128)) {
+        Ordering::Equal => 0.0.partial_cmp(&(f - t)).unwrap_or(Ordering::Equal),
+        order => order,
     }
 }
 
